@@ -94,6 +94,12 @@ static CURRENT_CHECK: std::sync::OnceLock<String> = std::sync::OnceLock::new();
 pub fn subject_depth(d: i32) {
     let _ = IN_SUBJECT.try_with(|c| c.set(c.get() + d));
 }
+pub fn in_subject() -> bool {
+    IN_SUBJECT.try_with(|c| c.get()).unwrap_or(0) > 0
+}
+pub fn current_check() -> String {
+    CURRENT_CHECK.get().cloned().unwrap_or_else(|| "C00".into())
+}
 /// the check this process runs (names the property of an allocation-cap verdict without a case context)
 pub fn set_current_check(id: &str) {
     let _ = CURRENT_CHECK.set(id.to_string());
